@@ -146,8 +146,9 @@ struct Cell {
     op: Op,
     enc: Enc,
     good: bool,
-    /// the function under test has three parameters (aa, g, bb) instead of one
-    arity3: bool,
+    /// parameter list of the function under test: 0 = (g), 1 = (aa, g, bb), 2 = (aa, u: void, g, bb): a void
+    /// parameter occupies no stack slot, 3 = (cx: C ToString, g) called with nil (a generic parameter instantiated to void)
+    params: u8,
 }
 
 impl Cell {
@@ -219,7 +220,7 @@ impl Cell {
                 Enc::Int => "i",
                 Enc::CarrierVoid => "v",
             },
-            if self.arity3 { "_a3" } else { "" }
+            ["", "_a3", "_av", "_ag"][self.params as usize]
         )
     }
 
@@ -399,7 +400,7 @@ impl Cell {
     /// (None when the program panicked)
     fn function(&self) -> (String, Vec<i64>, Option<Result<i64, i64>>) {
         let mut m = M { tr: vec![], op: self.op, stop: None };
-        let head = format!("fn {}({}) -> {} {{\n", self.fname(), if self.arity3 { "aa: int, g: bool, bb: int" } else { "g: bool" }, self.ret());
+        let head = format!("fn {}({}) -> {} {{\n", self.fname(), ["g: bool", "aa: int, g: bool, bb: int", "aa: int, u: void, g: bool, bb: int", "cx: C ToString, g: bool"][self.params as usize], self.ret());
         if self.pos == Pos::InLambda {
             // the lambda is the enclosing function of the operator
             let x = self.s("y", "g"); // the lambda has two parameters, so its arity differs from the enclosing function's
@@ -464,7 +465,7 @@ impl Cell {
             self.pos,
             self.ret(),
             if self.good { "success" } else { "failure" },
-            if self.arity3 { " enclosing-arity=3" } else { "" }
+            ["", " enclosing-arity=3", " enclosing-params=(int, void, bool, int)", " enclosing-params=(generic instantiated to void, bool)"][self.params as usize]
         )
     }
 
@@ -478,7 +479,12 @@ impl Cell {
             (Enc::CarrierVoid, Carrier::Res) => "showrv",
         };
         // the caller holds a pending operand (40) across the call
-        let call_args = if self.arity3 { format!("1, {}, 2", self.good) } else { format!("{}", self.good) };
+        let call_args = match self.params {
+            0 => format!("{}", self.good),
+            1 => format!("1, {}, 2", self.good),
+            2 => format!("1, nil, {}, 2", self.good),
+            _ => format!("nil, {}", self.good),
+        };
         let body = format!("let kk = tr(40) + {show}({}({call_args}))\nvh_emit_int(kk)", self.fname());
         let mut tr = vec![40];
         tr.extend(ftrace);
@@ -503,12 +509,12 @@ impl Cell {
 
 fn cells(tier: Tier) -> Vec<Cell> {
     let mut v = vec![];
-    for arity3 in [false, true] {
+    for params in 0..4u8 {
         for pos in positions(tier) {
             for carrier in [Carrier::Opt, Carrier::Res] {
                 for (op, enc) in [(Op::Try, Enc::Carrier), (Op::Unwrap, Enc::Carrier), (Op::Unwrap, Enc::Int), (Op::Try, Enc::CarrierVoid)] {
                     for good in [true, false] {
-                        v.push(Cell { pos, carrier, op, enc, good, arity3 });
+                        v.push(Cell { pos, carrier, op, enc, good, params });
                     }
                 }
             }
@@ -544,7 +550,7 @@ impl Prop for C23 {
     }
     fn expected_evaluations(&self, tier: Tier) -> Option<u64> {
         // arities × positions × carriers × (op, enclosing) × inputs + unasserted programs
-        Some(2 * positions(tier).len() as u64 * 2 * 4 * 2 + unasserted().len() as u64)
+        Some(4 * positions(tier).len() as u64 * 2 * 4 * 2 + unasserted().len() as u64)
     }
     fn run_unit(&self, tier: Tier, unit: usize, out: &mut UnitOut) {
         let all = cells(tier);
@@ -589,12 +595,12 @@ impl Prop for C23 {
         format!(
             "carrier {{option, result<_,int>}} × (operator, enclosing return type) {{(?, carrier<int>), (!, carrier<int>), (!, int), (?, carrier<void>)}} × tried payload {{int; void at the positions StmtVoid and StmtVoidInOperandBlock}} \
              (so for `?` the payload types of the tried value and of the enclosing function's return type range over {{int, void}}², e.g. a `result<void, int>` function doing `let v = sr(5, g)?`, an `option<int>` function doing `sov(5, g)?`; \
-             a void-payload function emits 2000 + the value before returning, so the value the operator produced is always used afterwards) × input {{success, failure}} × arity of the enclosing function {:?} (the in-lambda position uses a two-parameter lambda) × {} positions {:?}; \
+             a void-payload function emits 2000 + the value before returning, so the value the operator produced is always used afterwards) × input {{success, failure}} × parameter list of the enclosing function {:?} (a void parameter occupies no stack slot; the in-lambda position uses a two-parameter lambda) × {} positions {:?}; \
              sources so/sr(k, good) emit k when evaluated, other operands are tr(k), a trace emit follows every statement and 999 precedes the normal return; the caller evaluates \
              `tr(40) + show(f(input))` so a pending operand is live across the early return, and emits 41 afterwards. Oracle: transcription of each template: `?` on failure returns none / err(k+500) from the \
              enclosing function (for the in-lambda position: from the lambda; the outer function continues) with nothing after it evaluated; `!` on failure ends the program with runtime error kind panic after exactly \
              the emits up to the failing source; on success both yield the payload. Every case is non-trivial. {} further programs (carrier/return-type mismatch, `?` at top level, operators on int) are only fault-checked",
-            [1, 3],
+            ["(g)", "(aa, g, bb)", "(aa, u: void, g, bb)", "(cx: C ToString called with nil, g)"],
             positions(tier).len(),
             positions(tier),
             unasserted().len()
